@@ -342,3 +342,23 @@ func init() {
 		},
 	})
 }
+
+func init() {
+	register(&PropDef{
+		ID:    "C37",
+		Title: "REPL command lookup resolves unique prefixes and reports ambiguity",
+		Explanation: "Decided: L1 exact-match consultation: before prefixSearch reports ambiguity an equality between the prefix and a command name (binarySearch's found flag or Name == prefix) has been evaluated and returns the exact command — Cmd.Match returns 0 for exact matches and proper prefixes alike, so without it 'or when the prefix equals a command name' cannot hold; " +
+			"L2 Add appends, sorts with sortCmdList, then stores, and Add/Del/Lookup index the per-letter table by the first byte of the name; L3 every scan loop of prefixSearch is bounded by len(vec); L4 sortCmdList and binarySearch agree on ascending Name order; L5 an unknown ':' input sets CmdOptForceEval (evaluated as code), an ambiguous one evaluates nothing. " +
+			"Not decided: the element shifting arithmetic of removeCmd (needs reasoning about slice lengths, not shape), the contents of the ambiguity list.",
+		Assumptions: []string{"sort.Slice, strings.HasPrefix as documented"},
+		Rules:       []func(*Ctx){ruleCmdLookup},
+		Mutants: []Mutant{
+			{Name: "exact-flag-discarded", File: "fast/cmd.go", Old: "\tlo, found := binarySearch(vec, prefix)\n\tif found {\n\t\t// exact match: never ambiguous, even if other names extend it\n\t\treturn lo, nil\n\t}\n", New: "\tlo, _ := binarySearch(vec, prefix)\n", Canary: true},
+			{Name: "scan-stops-one-short", File: "fast/cmd.go", Old: "for ; hi < n; hi++ {", New: "for ; hi < n-1; hi++ {", Canary: true},
+			{Name: "sort-dropped", File: "fast/cmd.go", Old: "\t\tvec = append(vec, cmd)\n\t\tsortCmdList(vec)\n", New: "\t\tvec = append(vec, cmd)\n"},
+			{Name: "force-eval-dropped", File: "fast/cmd.go", Old: "\t\t\topt |= base.CmdOptForceEval\n", New: ""},
+			{Name: "sort-descending", File: "fast/cmd.go", Old: "return vec[i].Name < vec[j].Name", New: "return vec[i].Name > vec[j].Name"},
+			{Name: "del-wrong-key", File: "fast/cmd.go", Old: "\t\tc := name[0]\n\t\tif vec, ok := cmds.m[c]; ok {\n\t\t\tif pos, ok := binarySearch(vec, name); ok {", New: "\t\tc := name[len(name)-1]\n\t\tif vec, ok := cmds.m[c]; ok {\n\t\t\tif pos, ok := binarySearch(vec, name); ok {"},
+		},
+	})
+}
